@@ -41,6 +41,7 @@ fn cases(ob: &str) -> Vec<String> {
     for l in ["1e309", "1e400", "-1e309", "2.5e310", "17976931348623157e293", "1e99999", "2e308", "-1.8e308", "17976931348623159e292", "1.8e+308", "#d2e308", "-1e99999999999", "1e99999999999", "-2.5e+4294967296", "#d-1e2147483648"] { out.push(format!("huge:{}", l)); }
     out.push(format!("huge:1{}", "0".repeat(309)));
     out.push("printer:".into());
+    for i in 0..8 { out.push(format!("octets:{}", i)); }
     if ob.contains("parse_long_integer") { out.sort_by_key(|c| !c.starts_with("long")); }
     out
 }
@@ -107,6 +108,18 @@ fn check(case: &str) -> Option<String> {
                     match v.as_f64() { Some(g) if v.is_f64() && ((g - want) / want).abs() <= 2f64.powi(-50) => None, _ => Some(format!("from_str({:?}) = {:?}, the literal denotes about {:e} (outside the 64-bit integer range: a float approximating it)", lit, v, want)) }
                 }
                 Err(e) => Some(format!("from_str({:?}) fails: {}", lit, e)),
+            }
+        }
+        "octets" => {
+            // byte-vector elements go through their own radix-prefix dispatch (Parser::parse_number)
+            let table: Vec<(&str, Option<Vec<u8>>)> = vec![("#u8(#o17 #o377 #o0)", Some(vec![15, 255, 0])), ("#u8(#xff #x0A #xa)", Some(vec![255, 10, 10])), ("#u8(#b101 #b11111111)", Some(vec![5, 255])), ("#u8(#d9 #d255 12 007)", Some(vec![9, 255, 12, 7])),
+                ("#u8(#o19)", None), ("#u8(#b2)", None), ("#u8(#xfg)", None), ("#vu8(#o10 #x10 #b10 #d10 10)", Some(vec![8, 16, 2, 10, 10]))];
+            let (text, want) = table.into_iter().nth(p[1].parse::<usize>().ok()?)?;
+            match (lexpr::from_str(text), want) {
+                (Ok(v), Some(w)) => if v.as_bytes() == Some(&w[..]) { None } else { Some(format!("from_str({:?}) = {}, the literal denotes the octets {:?}", text, v, w)) },
+                (Err(e), Some(w)) => Some(format!("from_str({:?}) fails ({}), the literal denotes the octets {:?}", text, e, w)),
+                (Ok(v), None) => Some(format!("from_str({:?}) = {} although a digit is outside the radix", text, v)),
+                (Err(_), None) => None,
             }
         }
         "huge" => {
